@@ -182,7 +182,8 @@ class HDDResults(HDDBaseResults):
                 )
                 + ".csv"
             )
-            results = pd.read_csv(key, header=0)
+            # to_csv writes floats so that they round-trip; read them back exactly
+            results = pd.read_csv(key, header=0, float_precision="round_trip")
             index = results.loc[:, "index"].values
             y_true = results.loc[:, "y_true"].values
             y_pred = results.loc[:, "y_pred"].values
